@@ -641,6 +641,9 @@ class _MakeComposite:
         "MissingSerializationModeError": lambda s: IS_NONE(s.builder._serialization_mode),
         "InvalidNameError": None, "InvalidVersionError": None, "AttributeNameCollisionError": None,
         "InvalidFixedPortIDError": None, "AggregationError": None, "MalformedUnionError": None, "InvalidExtentError": None,
+        # (the composite constructors are used through the coarse contracts of specs/c03.py in this process, which name
+        # only the common base class of the rule-specific errors above)
+        "InvalidDefinitionError": None,
     }
 
     def pre(s):
@@ -925,6 +928,7 @@ class _Finalize:
     returns = ObjOf(COMPOSITE)
     raises = dict(_SERVICE_ERRORS, MalformedUnionError=None, InvalidExtentError=None, **{
         "MissingSerializationModeError": lambda s: OR(*[IS_NONE(sec._serialization_mode) for sec in c03.SECS(s.self)]),
+        "InvalidDefinitionError": None,  # the common base class of the rule-specific errors (see _make_composite)
     })
     raises_if = {"UnregulatedFixedPortIDError": lambda s: NOT(s.self._allow_unregulated_fixed_port_id)}  # one-sided
     may_raise = ["ValueError"]  # ServiceType.__init__'s internal consistency error (see _ServiceInitAssumed)
